@@ -69,12 +69,12 @@ theorem encodeFile_append (cs : List FTxn) (t : FTxn) :
     the vote write (any status byte), or all of it with the status byte still 'c' -/
 inductive Torn : Bytes → Prop where
   | part (st : Nat) (t : FTxn) (n : Nat) (hb : ∀ r ∈ t.recs, BodyWF r.body) (htl : t.tlen < 2 ^ 64)
-      (hn : n < t.tlen + 8) : Torn ((encodeTxnSt st t).take n)
+      (hn : n < t.tlen + 8) (hst : st < 128) : Torn ((encodeTxnSt st t).take n)
   | checkpoint (t : FTxn) (hb : ∀ r ∈ t.recs, BodyWF r.body) : Torn (encodeTxnSt stCheckpoint t)
 
 theorem Torn.nil : Torn [] := by
   have := Torn.part 0 ⟨0, 0, [], [], [], []⟩ 0 (by simp) (by simp [FTxn.tlen, FTxn.hdrLen, recsLen])
-    (by omega)
+    (by omega) (by omega)
   simpa using this
 
 /-- one more scan step on a torn tail: nothing is accepted, the scan ends at `pos` -/
@@ -82,8 +82,8 @@ theorem scan_torn (tail : Bytes) (ht : Torn tail) (f pos : Nat) (st : ScanState)
     ∃ how, scan (f + 1) tail pos st = .ok ⟨pos, st.index, st.ltid, st.txns, how⟩ ∧
       (how = .eof ↔ tail = []) ∧ how ≠ .stop := by
   cases ht with
-  | part s t n hb htl hn =>
-    simp only [scan, parseTxn_torn s t pos n hb htl hn]
+  | part s t n hb htl hn hst =>
+    simp only [scan, parseTxn_torn s t pos n hb htl hn hst]
     have hlen : ((encodeTxnSt s t).take n).length = n := by
       rw [List.length_take, encodeTxnSt_length _ _ hb]; omega
     by_cases h0 : n = 0
@@ -236,7 +236,7 @@ theorem torn_vote (pos : Nat) (t : FTxn) (h : AbortWF t) (nb : Nat) :
     Torn ((voteBytes pos t).take nb) := by
   have hb := mkTxn_body pos t h.1
   by_cases hn : nb < t.tlen + 8
-  · exact Torn.part _ _ _ hb (by simpa using h.2) (by simpa using hn)
+  · exact Torn.part _ _ _ hb (by simpa using h.2) (by simpa using hn) (by decide)
   · have : (voteBytes pos t).take nb = voteBytes pos t := by
       apply List.take_of_length_le
       rw [voteBytes, encodeTxnSt_length _ _ hb, mkTxn_tlen]; omega
